@@ -295,6 +295,13 @@ def falsify_accept(m, out, eo=None):
     if m.get("kind") == "setkey":
         return None if out == "rc=%d" % m["expect_rc"] else "setkey(%s, key=%s attr=%s) returned %s, the documented table says %d" % (
             m["cfg_alg"], m["key"], m["attr"], out, m["expect_rc"])
+    if m.get("kind") == "gen-strength":
+        signed = field(out, "tok") not in (None, "NULL")
+        if signed and not m["may_sign"]:
+            return "a builder signed %s with a key below the algorithm's floor (%s)" % (m["alg"], m["key"])
+        if not signed and m["may_sign"]:
+            return "a builder refused %s with a key that meets the floor (%s)" % (m["alg"], m["key"])
+        return None
     c = c14_contract(out)
     if c:
         return "C14 contract broken: " + c
@@ -906,6 +913,33 @@ def strength(world, pool, tier, rng, extra_keys):
             tok = msg + b"." + (sig if sig is not None else b"AAAA")
             metas.append((len(world.ops), {"kind": "verify", "key": name, "bits": key.bits, "alg": alg, "may_accept": ok, "must_accept": ok}))
             world.op("ck 0 verify " + hx(tok), tag="verify")
+    # one checker (and one builder) whose callback hands out the same key for a stronger algorithm next time: a key that was
+    # big enough for the last token is measured again, against the algorithm of THIS token
+    k32 = K.Key("oct", k=bytes(rng.randrange(256) for _ in range(32)), bits=256)
+    it32 = world.add_key(fresh_set(), k32, private=True, alg_attr=None)
+    world.op("ck 3 new", tag="cfg")
+    world.op("bl 3 new", tag="cfg")
+    for rep in range(2):
+        for alg in ("HS256", "HS384", "HS256", "HS512", "HS256"):
+            a = K.ALG_ORD[alg]
+            world.op("ck 3 setcb key:%d:%d,alg:%d" % (it32 + (a,)), tag="cfg")
+            msg = seg({"alg": alg}) + b"." + seg({"n": rep})
+            ok = 32 >= HS_MIN[alg]
+            metas.append((len(world.ops), {"kind": "verify", "key": "oct32 handed out by the callback, after tokens of other algorithms", "alg": alg, "may_accept": ok, "must_accept": ok}))
+            world.op("ck 3 verify " + hx(msg + b"." + hs_sig(a, k32.k, msg)), tag="verify")
+            world.op("bl 3 setcb key:%d:%d,alg:%d" % (it32 + (a,)), tag="cfg")
+            metas.append((len(world.ops), {"kind": "gen-strength", "key": "oct32 handed out by the callback, after tokens of other algorithms", "alg": alg, "may_sign": ok}))
+            world.op("bl 3 gen", tag="gen")
+    if "p256" in pool.keys:
+        itp = world.add_key(fresh_set(), pool.keys["p256"], private=False, alg_attr=None)
+        for alg in ("ES256", "ES384", "ES256", "ES512"):
+            a = K.ALG_ORD[alg]
+            world.op("ck 3 setcb key:%d:%d,alg:%d" % (itp + (a,)), tag="cfg")
+            msg = seg({"alg": alg}) + b"." + seg({"k": "p256"})
+            sg = pool.sign("p256", "ES256", msg) if alg == "ES256" else b"AAAA"
+            ok = alg == "ES256"
+            metas.append((len(world.ops), {"kind": "verify", "key": "p256 handed out by the callback, after tokens of other algorithms", "alg": alg, "may_accept": ok, "must_accept": ok}))
+            world.op("ck 3 verify " + hx(msg + b"." + sg), tag="verify")
     # a keyring that is loaded into more than once: a weak key arriving under the kid (and type) of a strong one that is
     # already there -- in either order -- is still a weak key, whichever item the application ends up holding
     strong = K.Key("oct", k=bytes(rng.randrange(256) for _ in range(32)), bits=256)
